@@ -72,7 +72,11 @@ TCClose == IsEvent("cl.close") /\ ~cclosed[E.c] /\ cclosed' = [cclosed EXCEPT ![
              /\ UNCHANGED <<svars, serveRunning, accepting, open, ph, mark, inmap, netClosed, tout, wire, buf, sent, nstart, unflushed, delivered, lost>>
 \* Accept of listener E.l returned connection E.c (logged by the listener before it hands the connection over)
 TTake == IsEvent("ln.accept") /\ AcceptTake(E.ln, E.c)
-TAccept == IsEvent("srv.open.inc") /\ \E x \in Listeners : accepting[x] = E.c /\ AcceptCount(x)
+TAccept == IsEvent("srv.open.inc") /\ \/ E.i = 0 /\ \E x \in Listeners : accepting[x] = E.c /\ AcceptCount(x)
+                                     \/ E.i = 1 /\ ScAdmit(E.c)      \* ServeConn admitted it
+\* turned away for Server.Concurrency: by Serve (no worker; open--) / by ServeConn (open never counted)
+TServeReject == IsEvent("srv.reject") /\ ServeReject(E.c)
+TScReject == IsEvent("sc.reject") /\ ScReject(E.c)
 TServeRet == IsEvent("srv.serve.ret") /\ ServeReturnL(E.ln)
 TReg == IsEvent("srv.conn.reg") /\ Register(E.c)
 TFirst == IsEvent("srv.firstbyte") /\ (FirstByteFrom(E.c, "top", TRUE) \/ FirstByteFrom(E.c, "check", TRUE))
@@ -93,6 +97,8 @@ TWriteFail == IsEvent("conn.write") /\ E.ok = 0
                 /\ \/ ph[E.c] = "written" /\ ph' = [ph EXCEPT ![E.c] = "leaving"]
                    \/ ph[E.c] = "stopping" /\ ph' = [ph EXCEPT ![E.c] = "leaving"]
                 /\ UNCHANGED <<svars, serveRunning, accepting, open, mark, inmap, netClosed, cclosed, tout, wire, buf, sent, nstart, unflushed, delivered, lost>>
+\* the 503 written to a connection that is turned away
+TWriteReject == IsEvent("conn.write") /\ ph[E.c] \in {"none", "exited"} /\ UNCHANGED vars
 TCCBreak == IsEvent("srv.cc.break") /\ CloseBreak(E.c)
 \* (the model's count of buffered requests is an upper bound of the real one: where it allows both, the logged
 \* stamp tells which way the code went)
@@ -119,7 +125,7 @@ TScanEnd == IsEvent("sd.scan.end") /\ ScanEnd /\ Settle(lastIdle) /\ lastIdle' =
 TReturn == IsEvent("sd.return") /\ ReadOpenResult(TRUE)
 TWait == IsEvent("sd.wait") /\ ReadOpenResult(FALSE)
 
-PlainNext == \/ TSend \/ TCClose \/ TTake \/ TAccept \/ TServeRet \/ TReg \/ THStart \/ THEnd \/ TSwap
+PlainNext == \/ TServeReject \/ TScReject \/ TWriteReject \/ TSend \/ TCClose \/ TTake \/ TAccept \/ TServeRet \/ TReg \/ THStart \/ THEnd \/ TSwap
              \/ TResp \/ TWriteOk \/ TWriteFail \/ TCCBreak \/ TIdle \/ TStopSeen \/ TUnreg \/ TOpenDec
              \/ TStop \/ TLnClosed \/ TDone \/ TServeAgain \/ TReturn \/ TWait
 TraceNext == \/ PlainNext /\ UNCHANGED gvars
